@@ -156,7 +156,12 @@ class FS(Env):
             return self.rebuild(content[1])
         classes = self.contract[self.fmt]
         idx = self.w.choose(len(classes), f"decoder_exception({fh.path},{content[0]})")
-        raise prog(classes[idx](f"bad {self.fmt} content: {content[0]}"))
+        msg = f"bad {self.fmt} content: {content[0]}"
+        try:
+            exc = classes[idx](msg)
+        except TypeError:
+            exc = classes[idx](msg, "", 0)  # json.JSONDecodeError(msg, doc, pos)
+        raise prog(exc)
 
     # -- crash semantics -----------------------------------------------------------------------
     def after_crash(self, lose_unsynced):
